@@ -286,7 +286,8 @@ func (s *c6State) apply(op c6Op) (fail *c6Fail) {
 		}
 	}
 	ctx.Close()
-	return nil
+	// everything stored (not only what this batch looks at) must still sit under the right metadata
+	return s.checkAll("after-forward")
 }
 
 // checkAll probes every live sequence with a read-only look at the cache metadata and data:
@@ -675,7 +676,7 @@ func ZZVerifC06() {
 	for i := range cfgs {
 		items[i] = fmt.Sprint(i)
 	}
-	r.Rule(fmt.Sprintf("breadth-first search over all histories of Forward (every composition of <= maxBatch tokens over the sequences, each continuing its sequence), CopyPrefix (every src,dst,len), Resume (CanResume+truncate at every prefix length) and Remove of every middle range up to depth %d on the real kvcache.Causal (fakeml lazy backend, 2 layers, 2x2 head layout), for every configuration of the grid; states deduplicated on a canonical fingerprint of the whole cache (cells, ranges, all stored data); non-trivial = distinct states in which some cell is shared by two sequences, a position was shifted, or cells were moved by defragmentation", depth))
+	r.Rule(fmt.Sprintf("breadth-first search over all histories of Forward (every composition of <= maxBatch tokens over the sequences, each continuing its sequence), CopyPrefix (every src,dst,len), Resume (CanResume+truncate at every prefix length) and Remove of every middle range up to depth %d on the real kvcache.Causal (fakeml lazy backend, 2 layers, 2x2 head layout), for every configuration of the grid; states deduplicated on a canonical fingerprint of the whole cache (cells, ranges, all stored data); plus, for caches of N cells filled by N single-token sequences, every subset of removed sequences followed by every batch size (all hole patterns a defragmentation can meet); non-trivial = distinct states in which some cell is shared by two sequences, a position was shifted, or cells were moved by defragmentation", depth))
 	r.Assume("the driver uses the cache the way the Cache interface documents and the runners do: positions continue the sequence; a sequence is cut back to a prefix only after CanResume(seq, prefixLen) said yes (else it is cleared), and that is also the first thing done with the target of a CopyPrefix; a middle range is removed without asking (context shift); after a Remove error the sequence is cleared",
 		"window semantics are those of the mask definition: entries with pos >= p - window are in the window",
 		"a sequence never outgrows the per-sequence capacity (the runner shifts before that)")
@@ -777,6 +778,65 @@ func ZZVerifC06() {
 			fmt.Fprintf(os.Stderr, "config %d %+v: %d states\n", ci, cfg, states)
 		}
 	})
-	r.Extra("bounds", map[string]any{"depth": depth, "configs": len(cfgs), "state_cap_per_config": maxStates})
+	// defragmentation patterns: N single-token sequences fill N cells, every subset of them is removed,
+	// then a batch of b new tokens needs b contiguous cells (defrag whenever the holes are scattered)
+	ns := []int{6, 8}
+	if thorough {
+		ns = []int{6, 8, 10, 12}
+	}
+	var ditems []string
+	for _, n := range ns {
+		for _, v := range [][3]int{{1, 1, 16}, {1, 1, 64}, {2, 2, 16}} {
+			for _, pv := range []int{0, 1} {
+				ditems = append(ditems, fmt.Sprintf("%d %d %d %d %d", n, v[0], v[1], v[2], pv))
+			}
+		}
+	}
+	r.Parallel(0, ditems, func(item string, sub *evid.Run) {
+		var n, pad, mpad, nodes, pv int
+		fmt.Sscan(item, &n, &pad, &mpad, &nodes, &pv)
+		cfg := c6Config{MaxSeq: n, Capacity: 1, MaxBatch: n, CachePad: pad, MaskPad: mpad, PermutedV: pv == 1, Shift: true, MaxNodes: nodes}
+		all := make([]int, n)
+		for i := range all {
+			all[i] = i
+		}
+		for mask := 1; mask < 1<<n; mask++ {
+			var dead []int
+			for q := 0; q < n; q++ {
+				if mask&(1<<q) != 0 {
+					dead = append(dead, q)
+				}
+			}
+			for b := 1; b <= len(dead); b++ {
+				hist := []c6Op{{Kind: "fwd", Seqs: all}}
+				for _, q := range dead {
+					hist = append(hist, c6Op{Kind: "resume", Seq: q, Begin: 0})
+				}
+				hist = append(hist, c6Op{Kind: "fwd", Seqs: dead[:b]})
+				sub.Eval()
+				sub.Add("transitions", int64(len(hist)))
+				st := c6New(cfg)
+				var f *c6Fail
+				for _, op := range hist {
+					if f = st.apply(op); f != nil {
+						break
+					}
+				}
+				if st.defrag {
+					sub.DistinctH("nontrivial", evid.Hash(item+fmt.Sprint(mask, b)))
+					sub.DistinctH("state", evid.Hash("defrag"+item+st.fingerprint()))
+				}
+				if f != nil {
+					if f2 := c6RunHistory(cfg, hist, false); f2 == nil || f2.clause != f.clause {
+						sub.Extra("machinery_errors", []string{"C06 defrag pattern not reproducible"})
+						continue
+					}
+					js, _ := json.Marshal(cfg)
+					sub.Violation("C06/"+f.clause+"/causal/defrag-pattern", fmt.Sprintf("%s\nconfig %s\nhistory %v", f.msg, js, hist), c6Replay{Cfg: cfg, Ops: hist})
+				}
+			}
+		}
+	})
+	r.Extra("bounds", map[string]any{"depth": depth, "configs": len(cfgs), "state_cap_per_config": maxStates, "defrag_pattern_cells": ns})
 	r.Finish()
 }
